@@ -65,12 +65,22 @@ pub fn wrapped(l: &avt::Line) -> bool {
     avt::util::TextUnwrapper::new().push(l).is_none()
 }
 
-/// Builds a terminal through the public builder. The order of the two builder calls and whether the
+/// Builds a terminal through the public constructors: `Vt::new` (unlimited scrollback only) or the
+/// builder, relying on its default 80x24 geometry where that is what is asked for. The order of the two builder calls and whether the
 /// builder has been used before are varied (deterministically, from the geometry): every order is a
 /// legal use of the API and must give the same terminal.
 pub fn build(cols: usize, rows: usize, limit: Option<usize>) -> Vt {
+    if limit.is_none() && (cols + 3 * rows) % 5 == 0 {
+        // the convenience constructor: unlimited scrollback
+        return Vt::new(cols, rows);
+    }
     let mut b = Vt::builder();
-    if (cols ^ rows) & 1 == 0 {
+    if cols == 80 && rows == 24 {
+        // the documented default geometry: no size() call at all
+        if let Some(l) = limit {
+            b.scrollback_limit(l);
+        }
+    } else if (cols ^ rows) & 1 == 0 {
         if let Some(l) = limit {
             b.scrollback_limit(l);
         }
